@@ -15,6 +15,7 @@ use s2n_quic_core::{
 
 /// case = kind :: rest
 /// kind 0: decode `rest` as bytes          -> [1, value, consumed] | [0]
+/// kind 2: placeholder, replacement -> [n, bytes..] of encode_updated | [0]
 /// kind _: VarInt::new(rest[0]) and encode -> [1, encoding_size, n, bytes.., n', bytes'..] | [0]
 fn varint(input: &[V]) -> Vec<V> {
     let mut c = Cur::new(input);
@@ -25,6 +26,23 @@ fn varint(input: &[V]) -> Vec<V> {
             match buf.decode::<VarInt>() {
                 Ok((v, rest)) => vec![1, v.as_u64() as V, (bytes.len() - rest.len()) as V],
                 Err(_) => vec![0],
+            }
+        }
+        2 => {
+            // encode_updated: a placeholder's length, the replacement's value (packet Length field)
+            let p = c.u64();
+            let r = c.u64();
+            match (VarInt::new(p), VarInt::new(r)) {
+                (Ok(p), Ok(r)) if r <= p => {
+                    let mut buf = [0x5Au8; 8];
+                    let mut e = EncoderBuffer::new(&mut buf);
+                    p.encode_updated(r, &mut e);
+                    let n = e.len();
+                    let mut out = vec![n as V];
+                    out.extend(buf[..n].iter().map(|b| *b as V));
+                    out
+                }
+                _ => vec![0],
             }
         }
         _ => {
